@@ -130,11 +130,16 @@ func (p *wat2wasmWorker) EncodeWasm(enableDebugNames bool) ([]byte, error) {
 func (p *wat2wasmWorker) buildTypeSection() error {
 	p.mWasm.TypeSection = []*wasm.FunctionType{}
 
-	// Type段类型
+	// Type段类型: 显式声明的类型不合并, 索引和声明顺序一致
 	for _, x := range p.mWat.Types {
-		if err := p.buildFuncType(x.Name, x.Type); err != nil {
-			return err
+		t := &wasm.FunctionType{}
+		for _, param := range x.Type.Params {
+			t.Params = append(t.Params, p.buildValueType(param.Type))
 		}
+		for _, result := range x.Type.Results {
+			t.Results = append(t.Results, p.buildValueType(result))
+		}
+		p.mWasm.TypeSection = append(p.mWasm.TypeSection, t)
 	}
 
 	// 导入函数类型
